@@ -161,7 +161,14 @@ def run(ctx):
         ctx.unrecognised("C15.R5", "record production", pp.where(), f"{len(prs)} functions construct RecordStart")
     else:
         pr = prs[0]
-        ok = any(isinstance(c, ast.Call) and norm(c.func) == "RecordStart" and any(k.arg == "default" for k in c.keywords) for c in ast.walk(pr.node)) and any(isinstance(c, ast.Call) and norm(c.func) == "self._parse" and re.search(r"\w+\.get\('default', NO_DEFAULT\)", norm(c)) for c in ast.walk(pr.node))
+        # the production may be assembled through helper methods of the parser (one per field): they are part of it
+        scope = [pr.node]
+        if pr.cls is not None:
+            cinfo = pr.cls if hasattr(pr.cls, "methods") else None
+            for c in ast.walk(pr.node):
+                if isinstance(c, ast.Attribute) and isinstance(c.value, ast.Name) and c.value.id == "self" and cinfo is not None and c.attr in cinfo.methods and cinfo.methods[c.attr] is not pr and c.attr != "_parse":
+                    scope.append(cinfo.methods[c.attr].node)
+        ok = any(isinstance(c, ast.Call) and norm(c.func) == "RecordStart" and any(k.arg == "default" for k in c.keywords) for c in ast.walk(pr.node)) and any(isinstance(c, ast.Call) and norm(c.func) == "self._parse" and re.search(r"\w+\.get\('default', NO_DEFAULT\)", norm(c)) for sc in scope for c in ast.walk(sc))
         ctx.check("C15.R5", "record production: RecordStart carries the record default, fields are compiled with field.get('default', NO_DEFAULT)", ok, pr.where(), pr.qualname, "field defaults do not reach the grammar")
     rv = decJ.methods["read_value"]
     rcfg = cfg_of(rv)
